@@ -216,6 +216,19 @@ class RecipeRun:
         except Exception as e:  # noqa
             return (type(e).__name__, e)
 
+    def at_pure_solute_limit(self, c):
+        W = self.W
+        try:
+            value, num, den = M.parse_concentration(c['conc'], W.model.wv)
+            ms = W.msubs[c['solute']]
+            kn, kd = ms.per_amount(num), ms.per_amount(den)
+        except Exception:  # noqa
+            return False
+        if kd <= 0 or kn <= 0:
+            return False
+        pure = kn / kd
+        return value >= pure * (1 - F(1, 10 ** 9))
+
     # ------------------------------------------------------------------ two recipes side by side
     def shadow_call(self, c, main_kind, objs=None):
         """The same call on a second, independent Recipe object, interleaved with the first.  Two recipes given the same
@@ -383,8 +396,18 @@ class RecipeRun:
                 self.stats['early_refusal_unjudged'] += 1
             elif k in ('dilute', 'create_solution_from') and kind != 'RuntimeError':
                 # these two validate the concentration at declaration time with a legacy helper; such a rejection is
-                # argument validation, not life-cycle discipline (C16 says what is refused, not that all else is accepted)
-                self.stats['concentration_validation_unjudged'] += 1
+                # argument validation, not life-cycle discipline (C16 says what is refused, not that all else is accepted).
+                # It is a C08 matter though: the direct operation accepts this very step on the current state, so the
+                # sequence is valid and the recipe cannot even be told about it.
+                self.stats['concentration_validation_unjudged_for_C16'] += 1
+                if kind == 'ValueError' and self.at_pure_solute_limit(c):
+                    # the target is the concentration of the pure solute to within float noise: a feasibility boundary
+                    # (anything above it cannot exist), where a refusal is not judged (DESIGN section 3)
+                    self.stats['declaration_refusal_at_pure_solute_limit_unjudged'] += 1
+                else:
+                    self.V('C08', 'valid_step_refused', (k, kind),
+                       f"{k} {c.get('conc')!r} is accepted by the direct operation on the current state but the recipe refuses the step "
+                           f"when it is declared: {kind}: {out[1]}", self.first_excuse(('C08',)))
             else:
                 self.V('C16', 'valid_call_rejected', key + (kind,), f"{k} should be accepted ({c}) but raised {kind}: {out[1]}")
         elif pred == 'reject' and kind == 'ok':
